@@ -371,6 +371,11 @@ def range_fixed() -> list:
         {'kind': 'range', 'hold': 30, 'settle': 1.5, 'ops': [['connect', 0], ['handshake', 0], ['wait', 1.0], ['connect', 0], ['open', 1], ['wait', 3.0]]},
         {'kind': 'range', 'hold': 30, 'settle': 0.0, 'ops': [['connect', 0], ['handshake', 0], ['connect', 1], ['handshake', 1], ['connect', 0], ['handshake', 2]]},
         {'kind': 'range', 'hold': 9, 'settle': 1.5, 'ops': [['connect', 0], ['handshake', 0], ['close', 0], ['connect', 0], ['handshake', 1]]},
+        # two remote addresses of the range, then a second connection from the second address (met in the thorough tier: every peer
+        # created from the range shared one session object, so the first peer and the range itself took the second peer's address)
+        {'kind': 'range', 'hold': 30, 'settle': 0.0, 'ops': [['connect', 0], ['handshake', 0], ['connect', 1], ['handshake', 1], ['connect', 1], ['handshake', 2]]},
+        {'kind': 'range', 'hold': 30, 'settle': 1.5, 'ops': [['connect', 1], ['handshake', 0], ['connect', 0], ['handshake', 1], ['wait', 1.0], ['connect', 0], ['handshake', 2], ['connect', 1], ['handshake', 3]]},
+        {'kind': 'range', 'hold': 30, 'settle': 0.0, 'ops': [['connect', 0], ['handshake', 0], ['open', 0], ['connect', 0], ['wait', 0.0], ['connect', 1], ['handshake', 2], ['wait', 0.0], ['handshake', 1]]},
     ]
 
 
